@@ -15,7 +15,8 @@ DECIDES = ("Decided: what can enter the result set of _find_types in subtype mod
            "when asked (add/discard after every other insertion), that concrete_only maps every element through to_type, "
            "the mode wiring of find_subtypes / find_supertypes, and for find_irrelevant_type: None for the top type, type "
            "variables replaced by their bound, the pool minus BOTH supertypes and subtypes (include_self), and that an "
-           "instantiated generic candidate is tested against the query type before it is returned.")
+           "instantiated generic candidate is tested against the query type before it is returned; nested searches for "
+           "type arguments are concrete and run in the query direction in covariant, against it in contravariant position.")
 NOT_DECIDED = "soundness of _construct_related_types (randomised, value level)."
 
 TU = "src.ir.type_utils"
